@@ -85,14 +85,21 @@ def inject(d, which=None):
 
 
 def parse_kani_output(text):
-    """-> {harness: {status, checks, failed_checks}}"""
+    """-> {harness: {status, checks, failed_checks}}; handles the interleaved `Thread N:` format of -j"""
     res = {}
+    by_thread = {}
     cur = None
     for line in text.splitlines():
-        m = re.match(r"\s*(?:Thread \d+: )?Checking harness (\S+?)\.\.\.", line)
+        m = re.match(r"\s*(?:Thread (\d+): )?Checking harness (\S+?)\.\.\.", line)
         if m:
-            cur = m.group(1)
+            cur = m.group(2)
             res[cur] = {"status": "UNKNOWN", "checks": None, "failed_checks": []}
+            if m.group(1) is not None:
+                by_thread[m.group(1)] = cur
+            continue
+        m = re.match(r"\s*Thread (\d+):\s*$", line)
+        if m:
+            cur = by_thread.get(m.group(1), cur)
             continue
         if cur is None:
             continue
@@ -220,4 +227,4 @@ def replay(path):
 if __name__ == "__main__":
     hs = [{"name": n, "role": "complete"} for n in sys.argv[1:]]
     r = run_harnesses(hs, "quick", keep=bool(os.environ.get("KEEP")))
-    print(json.dumps(r, indent=1)[:6000])
+    print(json.dumps(r))
